@@ -32,6 +32,8 @@ def place(rec):
     text = "".join(rec["text"])
     if rec["kind"] == "addr":
         return "PROGRAM p VAR x AT %s : BOOL; END_VAR END_PROGRAM" % text
+    if rec["kind"] == "ill":
+        return "PROGRAM p VAR x : %s := %s; END_VAR END_PROGRAM" % (TYPE_OF[rec["value"]["as"]], text)
     if rec["kind"] == "str" and rec["value"]["wide"]:
         return "PROGRAM p VAR x : WSTRING := %s; END_VAR END_PROGRAM" % text
     return "PROGRAM p VAR x : %s := %s; END_VAR END_PROGRAM" % (TYPE_OF[rec["kind"]], text)
